@@ -405,3 +405,48 @@ V("c06-no-expand-include", "C06", "fire", "C06.R2",
 V("c06-include-context-other", "C06", "fire", "C06.R3",
   (LD, "        parser = ZConfig.cfgparser.ZConfigParser(resource, self, defines)",
        "        parser = ZConfig.cfgparser.ZConfigParser(resource, ConfigLoader(self.schema), defines)"))
+
+# ---------------------------------------------------------------- C18
+UR = "src/ZConfig/url.py"
+SC = "src/ZConfig/schema.py"
+V("c18-scheme-no-plus", "C18", "fire", "C18.R1",
+  (LD, r'_pathsep_rx = re.compile(r"[a-zA-Z][-+.a-zA-Z0-9]*:")',
+       r'_pathsep_rx = re.compile(r"[a-zA-Z][-.a-zA-Z0-9]*:")'))
+V("c18-le2-equiv", "C18", "silent", None,
+  (LD, "return len(m.group(0)) == 2", "return len(m.group(0)) <= 2"))
+V("c18-drive-3", "C18", "fire", "C18.R1",
+  (LD, "return len(m.group(0)) == 2", "return len(m.group(0)) <= 3"))
+V("c18-slice-6", "C18", "fire", "C18.R2",
+  (UR, '    if lc.startswith("file:/") and not lc.startswith("file:///"):\n        url = "file://" + url[5:]',
+       '    if lc.startswith("file:/") and not lc.startswith("file:///"):\n        url = "file://" + url[6:]'))
+V("c18-normalize-case-sensitive", "C18", "fire", "C18.R2",
+  (UR, "    lc = url.lower()\n", "    lc = url\n"))
+V("c18-double-quote", "C18", "fire", "C18.R3",
+  (LD, '            url = "file://" + pathname2url(os.path.abspath(url))',
+       '            url = "file://" + pathname2url(pathname2url(os.path.abspath(url)))'))
+V("c18-no-abspath", "C18", "fire", "C18.R",
+  (LD, '        return "file://" + pathname2url(os.path.abspath(name))',
+       '        return "file://" + pathname2url(name)'))
+V("c18-import-no-gate", "C18", "fire", "C18.R4",
+  (SC, "            if fragment:\n                self.error(\"import src may not include\"\n"
+       "                           \" a fragment identifier\")\n", ""))
+V("c18-extends-no-gate", "C18", "fire", "C18.R4",
+  (SC, "                if fragment:\n                    self.error(\"schema extends many not include\"\n"
+       "                               \" a fragment identifier\")\n", ""))
+V("c18-normalize-no-gate", "C18", "fire", "C18.R",
+  (LD, "        if fragment:\n            raise ZConfig.ConfigurationError(\n"
+       "                \"fragment identifiers are not supported\",\n                url)\n", ""))
+V("c18-import-join-loader", "C18", "fire", "C18.R4",
+  (SC, "            src = url.urljoin(self._url, src)\n            src, fragment = url.urldefrag(src)\n            if fragment:\n                self.error(\"import",
+       "            src = url.urljoin(self._schema.url, src)\n            src, fragment = url.urldefrag(src)\n            if fragment:\n                self.error(\"import"))
+V("c18-component-parser-url", "C18", "fire", "C18.R5",
+  (SC, "    parser = ComponentParser(loader, resource.url, schema)",
+       "    parser = ComponentParser(loader, schema.url, schema)"))
+V("c18-name-rule", "C18", "fire", "C18.R6",
+  (LD, '    if name and name[0] != "<" and name[-1] != ">":',
+       '    if name and name[0] != "<":'))
+V("c18-package-prefix", "C18", "fire", "C18.R6",
+  (LD, '        if url.startswith("package:"):', '        if url.startswith("pkg:"):'))
+V("c18-loadurl-skip-normalize", "C18", "fire", "C18.R3",
+  (LD, "        url = self.normalizeURL(url)\n        with self.openResource(url) as r:\n            return self.loadResource(r)",
+       "        with self.openResource(url) as r:\n            return self.loadResource(r)"))
